@@ -425,15 +425,18 @@ add('c20-sift-reads-level', S, "    _nsamples_warn(X.shape[0], max_imfs)\n\n    
 
 
 # ---------------------------------------------------------------- rules added for the third wave
-add('c01-resid-inplace-benign', S, "        proto_imf = X - imf.sum(axis=1)[:, None]\n        layer += 1",
-    "        proto_imf -= next_imf\n        layer += 1", 'benign', ['C01', 'C03'])
+# (listed as benign until the fifth seeding wave: an independent sub-agent delivered exactly this edit as a breaking
+# change with a demonstration - the in-place update keeps the caller's dtype: an integer signal raises a casting error,
+# a float32 signal is rounded in every layer and later components differ from sift of `X - previous components`)
+add('c03-resid-inplace-dtype', S, "        proto_imf = X - imf.sum(axis=1)[:, None]\n        layer += 1",
+    "        proto_imf -= next_imf\n        layer += 1", 'breaking', ['C03', 'C01'], 'R1')
 add('c01-gni-no-copy-alone-benign', S, "    proto_imf = X.copy()\n\n    continue_imf = True", "    proto_imf = X\n\n    continue_imf = True",
     'benign', ['C01', 'C03'])
 add('c01-break-on-cap-benign', S, "        if max_imfs is not None and layer == max_imfs:\n            logger.info('Finishing sift: reached max number of imfs ({0})'.format(layer))\n            continue_sift = False\n",
     "        if max_imfs is not None and layer == max_imfs:\n            logger.info('Finishing sift: reached max number of imfs ({0})'.format(layer))\n            break\n",
     'benign', ['C01', 'C03'])
 add('c01-cap-test-only-logs', S, "            logger.info('Finishing sift: reached max number of imfs ({0})'.format(layer))\n            continue_sift = False\n",
-    "            logger.info('Finishing sift: reached max number of imfs ({0})'.format(layer))\n", 'breaking', ['C01', 'C03'], 'R3')
+    "            logger.info('Finishing sift: reached max number of imfs ({0})'.format(layer))\n", 'breaking', ['C03'], 'R3')
 add('c04-stop-ignored', S, "        if stop:\n            proto_imf = x1.copy()\n            continue_imf = False\n            continue\n",
     "        if stop:\n            proto_imf = x1.copy()\n", 'breaking', ['C04'], 'C04.R')
 add('c06-trough-option-dropped', S, "        max_locs, max_ext = _find_extrema(-X, parabolic_extrema=parabolic_extrema)",
